@@ -526,3 +526,204 @@ def c14_programs(seed, tier):
                     pts.append(p)
                 out.append(prog(f"b_{gname}_{tname}_{sname}", [new("g"), pc(proto, pts=pts), FIN], reals=True))
     return out
+
+
+# ------------------------------------------------------------------------------------------ C05 / C13
+import math
+HALF_PI = math.pi / 2
+
+
+def quat_matrix(q):
+    w, x, y, z = q
+    m = [[w * w + x * x - y * y - z * z, 2 * (x * y - w * z), 2 * (x * z + w * y)],
+         [2 * (x * y + w * z), w * w - x * x + y * y - z * z, 2 * (y * z - w * x)],
+         [2 * (x * z - w * y), 2 * (y * z + w * x), w * w - x * x - y * y + z * z]]
+    return [[int(round(v)) for v in row] for row in m]
+
+
+S2 = math.sqrt(0.5)
+POSES = [None,
+         ((1.0, 0.0, 0.0, 0.0), (0.0, 0.0, 0.0)),
+         ((S2, 0.0, 0.0, S2), (1.5, -2.25, 3.0)),
+         ((0.0, 1.0, 0.0, 0.0), (0.0, 0.0, -8.0)),
+         ((0.5, 0.5, 0.5, 0.5), (-1.0, 0.5, 0.25))]
+
+
+def pose_parts(pose):
+    if pose is None:
+        return [], None
+    q, t = pose
+    return [setter("transform", tf(q, t))], {"m": quat_matrix(q), "t": [int(round(v * 1024)) for v in t]}
+
+
+def coord_rec(name, t):
+    if t == "sint":
+        return rec(name, "sint", -(1 << 20), 1 << 20, 1.0 / 1024, 0.5)
+    return rec(name, t)
+
+
+def coord_val(rc, x):
+    if rc["t"] == "single":
+        return v_f32(x)
+    if rc["t"] == "double":
+        return v_f64(x)
+    return v_sint(int(round((x - 0.5) * 1024)))
+
+
+def angle_rec(name, t):
+    if t == "sint":
+        return {"ns": None, "name": name, "t": "sint", "min": -8, "max": 8, "scale": f64(HALF_PI), "offset": f64(0.0)}
+    return rec(name, t)
+
+
+def angle_val(rc, k):
+    if rc["t"] == "single":
+        return v_f32(k * HALF_PI)
+    if rc["t"] == "double":
+        return v_f64(k * HALF_PI)
+    return v_sint(k)
+
+
+LATTICE_PTS = [(1.0, 0.0, 0.0), (-2.5, 0.0, 0.0), (0.0, 3.0, 0.0), (0.0, -0.25, 0.0), (0.0, 0.0, 7.0), (0.0, 0.0, -1.0),
+               (1.0, 2.0, 3.0), (-4.5, 0.125, 9.0), (100.0, -200.0, 0.5)]
+SPH_PTS = [(2.0, 0, 0), (3.5, 1, 0), (1.0, 2, 0), (4.0, -1, 0), (5.0, 0, 1), (6.0, 0, -1), (0.5, 3, 0), (7.0, 1, 1), (0.0, 0, 0)]
+
+
+def c05_programs(seed, tier):
+    out = []
+    r = random.Random(seed)
+    ctypes = ["single", "double", "sint"] if tier == "thorough" else ["single", "sint"]
+    atypes = ["double", "single", "sint"] if tier == "thorough" else ["double"]
+    variants = []
+    for has_c in (True, False):
+        for has_s in (True, False):
+            if not (has_c or has_s):
+                continue
+            for cflag in ((True, False) if has_c else (False,)):
+                for sflag in ((True, False) if has_s else (False,)):
+                    variants.append((has_c, has_s, cflag, sflag))
+    k = 0
+    for (has_c, has_s, cflag, sflag) in variants:
+        for ct in ctypes:
+            for at in atypes:
+                if not has_c and ct != ctypes[0]:
+                    continue
+                if not has_s and at != atypes[0]:
+                    continue
+                pose = POSES[k % len(POSES)]
+                extra = k % 4   # colour/intensity/row-column combinations
+                k += 1
+                proto = []
+                if has_c:
+                    proto += [coord_rec(n, ct) for n in ("cartesianX", "cartesianY", "cartesianZ")]
+                    if cflag:
+                        proto.append(rec("cartesianInvalidState", "int", 0, 2))
+                if has_s:
+                    proto += [coord_rec("sphericalRange", ct if ct != "sint" else "double"), angle_rec("sphericalAzimuth", at), angle_rec("sphericalElevation", at)]
+                    if sflag:
+                        proto.append(rec("sphericalInvalidState", "int", 0, 2))
+                if extra in (1, 3):
+                    proto += rgb(255) + [rec("isColorInvalid", "int", 0, 1)]
+                if extra in (2, 3):
+                    proto += [rec("intensity", "int", 0, 1000), rec("isIntensityInvalid", "int", 0, 1)]
+                if extra in (0, 3):
+                    proto += [rec("rowIndex", "int", 0, 100), rec("columnIndex", "int", -5, 5)]
+                pts = []
+                states = [(a, b) for a in (0, 1, 2) for b in (0, 1, 2)]
+                for i, (cs, ss) in enumerate(states if (cflag or sflag) else states[:1] * 3):
+                    for j in range(3 if tier == "thorough" else 2):
+                        c = LATTICE_PTS[(i + 3 * j) % len(LATTICE_PTS)]
+                        s = SPH_PTS[(i * 2 + j) % len(SPH_PTS)]
+                        p = []
+                        for rc in proto:
+                            n = rc["name"]
+                            if n.startswith("cartesian") and n != "cartesianInvalidState":
+                                p.append(coord_val(rc, c["XYZ".index(n[-1])]))
+                            elif n == "cartesianInvalidState":
+                                p.append(v_int(cs))
+                            elif n == "sphericalRange":
+                                p.append(coord_val(rc, s[0]) if rc["t"] != "sint" else v_sint(int((s[0] - 0.5) * 1024)))
+                            elif n == "sphericalAzimuth":
+                                p.append(angle_val(rc, s[1]))
+                            elif n == "sphericalElevation":
+                                p.append(angle_val(rc, s[2]))
+                            elif n == "sphericalInvalidState":
+                                p.append(v_int(ss))
+                            elif n.startswith("color"):
+                                p.append(v_int((i * 37 + j * 11 + len(p)) % 256))
+                            elif n == "isColorInvalid":
+                                p.append(v_int((i + j) % 2))
+                            elif n == "intensity":
+                                p.append(v_int((i * 111 + j * 7) % 1001))
+                            elif n == "isIntensityInvalid":
+                                p.append(v_int((i // 2 + j) % 2))
+                            elif n == "rowIndex":
+                                p.append(v_int((i * 3 + j) % 101))
+                            elif n == "columnIndex":
+                                p.append(v_int((i + j) % 11 - 5))
+                        pts.append(p)
+                sets, pm = pose_parts(pose)
+                step = pc(proto, pts=pts, setters=sets)
+                step["pose_matrix"] = pm
+                out.append(prog(f"view_c{int(has_c)}{int(cflag)}_s{int(has_s)}{int(sflag)}_{ct}_{at}_p{k % len(POSES)}_x{extra}", [new(), step, FIN]))
+    # several packets: the view must not depend on packet boundaries (a value may straddle packets)
+    proto = [coord_rec(n, "double") for n in ("cartesianX", "cartesianY", "cartesianZ")] + [rec("intensity", "int", 0, 7)]
+    n = 2800 if tier == "quick" else 6000
+    pts = [[v_f64((i % 64) * 0.25), v_f64(-(i % 5)), v_f64(1.0), v_int(i % 8)] for i in range(n)]
+    sets, pm = pose_parts(POSES[2])
+    step = pc(proto, pts=pts, setters=sets); step["pose_matrix"] = pm
+    out.append(prog("view_multi_packet", [new(), step, FIN], opts=[[True, True, False, True, True, True], [False] * 6]))
+    return out
+
+
+def c13_programs(seed, tier):
+    out = []
+    XYZ = xyz("single")
+
+    def sweep(name, irec, values, limits="default", color=False, xml_replace=None, opts=None):
+        names = ["colorRed", "colorGreen", "colorBlue"] if color else ["intensity"]
+        proto = XYZ + [dict(irec, name=n) for n in names]
+        pts = [[v_f32(1.0), v_f32(0.0), v_f32(0.0)] + [v] * len(names) for v in values]
+        sets = []
+        if limits != "default":
+            sets.append(setter("color_limits" if color else "intensity_limits", limits))
+        fin = {"op": "finalize"} if xml_replace is None else {"op": "finalize", "xml_replace": xml_replace}
+        out.append(prog(name, [new(), pc(proto, pts=pts, setters=sets), fin],
+                        opts=opts or [[False, False, False, False, True, True], [False, False, False, True, False, False], [True, True, True, True, True, False]]))
+
+    small_int = rec("intensity", "int", -3, 12)
+    ints = [v_int(i) for i in range(-3, 13)]
+    sweep("int_default", small_int, ints)
+    sweep("int_color_default", small_int, ints, color=True)
+    sweep("int_limits_narrow", small_int, ints, limits={"min": v_int(0), "max": v_int(8)})
+    sweep("int_limits_float_on_int", small_int, ints, limits={"min": v_f64(-1.0), "max": v_f64(5.5)})
+    sweep("int_limits_single_on_int", small_int, ints, limits={"min": v_f32(0.25), "max": v_f32(10.0)})
+    sweep("int_limits_equal", small_int, ints, limits={"min": v_int(5), "max": v_int(5)})
+    sweep("int_limits_extreme", small_int, ints, limits={"min": v_int(I64MIN), "max": v_int(I64MAX)})
+    sweep("int_limits_reset", small_int, ints, limits=None)
+    sweep("int_limits_mixed_kinds", small_int, ints, limits={"min": v_int(0), "max": v_f64(8.0)})
+    sweep("int_limits_partial", small_int, ints, xml_replace=[['<intensityMaximum type="Integer">12</intensityMaximum>\n', '']])
+    sweep("int_degenerate_type", rec("intensity", "int", 7, 7), [v_int(7)] * 3)
+    sweep("int_degenerate_type_color", rec("intensity", "int", 7, 7), [v_int(7)] * 3, color=True)
+    sweep("int_4095", rec("intensity", "int", 0, 4095), [v_int(i) for i in (0, 1, 2, 2047, 2048, 4094, 4095)])
+    sweep("int_u16", rec("intensity", "int", 0, 65535), [v_int(i) for i in (0, 1, 32767, 32768, 65534, 65535)])
+    sweep("int_full_range", rec("intensity", "int", I64MIN, I64MAX), [v_int(i) for i in (I64MIN, -1, 0, 1, I64MAX)])
+    sint = rec("intensity", "sint", -8, 24, 0.25, 1.5)
+    sweep("sint_default", sint, [v_sint(i) for i in range(-8, 25)])
+    sweep("sint_neg_offset", rec("intensity", "sint", 0, 40, 0.5, -5.0), [v_sint(i) for i in range(0, 41, 3)])
+    sweep("sint_color", sint, [v_sint(i) for i in range(-8, 25, 2)], color=True)
+    sweep("sint_limits_float", sint, [v_sint(i) for i in range(-8, 25)], limits={"min": v_f64(0.0), "max": v_f64(4.0)})
+    fl = [v_f32(x * 0.25) for x in range(-2, 7)]
+    sweep("single_unit", rec("intensity", "single", f32(0.0), f32(1.0)), fl)
+    sweep("single_unit_color", rec("intensity", "single", f32(0.0), f32(1.0)), fl, color=True)
+    sweep("single_undeclared", rec("intensity", "single"), fl + [v_f32(3.0e38), v_f32(-3.0e38)])
+    sweep("single_undeclared_limits", rec("intensity", "single"), fl, limits={"min": v_f32(0.0), "max": v_f32(1.0)})
+    dl = [v_f64(x * 0.25) for x in range(-8, 21)]
+    sweep("double_declared", rec("intensity", "double", f64(-1.0), f64(4.0)), dl)
+    sweep("double_undeclared", rec("intensity", "double"), dl + [v_f64(1.7e308), v_f64(-1.7e308)])
+    sweep("double_undeclared_max", rec("intensity", "double"), [v_f64(0.0), v_f64(1.7976931348623157e308)])
+    sweep("double_limits_equal", rec("intensity", "double"), dl, limits={"min": v_f64(2.0), "max": v_f64(2.0)})
+    sweep("double_limits_extreme", rec("intensity", "double", f64(0.0), f64(1.0)), dl, limits={"min": v_f64(-1.7976931348623157e308), "max": v_f64(1.7976931348623157e308)})
+    sweep("double_color_limits", rec("intensity", "double", f64(0.0), f64(8.0)), dl, color=True,
+          limits={"rmin": v_f64(0.0), "rmax": v_f64(4.0), "gmin": v_f64(1.0), "gmax": v_f64(2.0), "bmin": v_f64(-2.0), "bmax": v_f64(0.0)})
+    return out
